@@ -66,7 +66,7 @@ def run(ctx):
     # depending or not on an orphan task in every state, possibly pruned) — model vs Go, and the manual's definition on Go's answer
     import subprocess
     p = subprocess.run([ctx.ev, "fn-ready-enum"], stdout=subprocess.PIPE, text=True)
-    cases = [json.loads(l) for l in p.stdout.splitlines()]
+    cases = [json.loads(l) for l in p.stdout.split("\n") if l]
     outs = common.model_batch([c["req"] for c in cases])
     nd = 0
     for c, o in zip(cases, outs):
